@@ -254,10 +254,11 @@ def gen_map_pkg(rng, force=None):
             new_dest.append(nm)
     files = {"src/s.go": "package src\n\n" + "\n".join(src_decls), "dest/d.go": "package dest\n\n" + "\n".join(dest_decls)}
     setup = []
-    if new_dest:
-        setup.append({"args": ["new", "-getset", "-type=" + ",".join(new_dest)], "cwd": "dest"})
-    if new_src:
-        setup.append({"args": ["new", "-getset", "-type=" + ",".join(new_src)], "cwd": "src"})
+    # one process per type: `shoot new -type=A,B` leaks `hasNew` from A into B (finding F_hasNewLeak)
+    for nm in new_dest:
+        setup.append({"args": ["new", "-getset", "-type=" + nm], "cwd": "dest"})
+    for nm in new_src:
+        setup.append({"args": ["new", "-getset", "-type=" + nm], "cwd": "src"})
     feats = {"map": 1, "types-%d" % n: 1}
     for nm, (sk, dk) in kinds.items():
         feats["src-" + sk] = 1
@@ -331,10 +332,10 @@ def gen_rest_pkg(rng, force=None):
     out = ["package rc", "", "import (", "\t\"context\"", "\t\"net/http\"", "", "\t\"github.com/lopolopen/shoot\"", ")", "",
            "type User struct {", "\tID   string `json:\"id\"`", "\tName string `json:\"name\"`", "}", ""]
     verbs = [("Get", "/users/{id}", "id string", "(*User, *http.Response, error)"),
-             ("Get", "/users", "key string, size int", "([]User, error)"),
+             ("Get", "/users", "key string, size int", "([]User, *http.Response, error)"),
              ("Post", "/users", "user User", "(*http.Response, error)"),
-             ("Put", "/users/{id}", "id int, user *User", "(*User, error)"),
-             ("Delete", "/users/{id}", "id int", "error")]
+             ("Put", "/users/{id}", "id int, user *User", "(*User, *http.Response, error)"),
+             ("Delete", "/users/{id}", "id int", "(*http.Response, error)")]
     bodies = {}
     for nm in names:
         out.append("// %s talks to a service" % nm)
@@ -433,12 +434,24 @@ def merge_file_sexp(d):
 
 
 def merged_obs(d):
-    """observation of the real merged file at the level of the merge model"""
+    """observation of the real merged file at the level of the merge model: every comment group (but the header) goes
+    with the declaration it lies in, or else with the next declaration (as its doc comment or as a stray comment)"""
     items = [x for x in d["decls"] if not x["imp"]]
+    cs = [[] for _ in items]
+    orphans = 0
+    for i, c in enumerate(d["comments"]):
+        if i == 0 and d["header"] and d["header"] == c["text"]:
+            continue
+        k = next((j for j, x in enumerate(items) if x["pos"] <= c["pos"] <= x["end"]), None)
+        if k is None:
+            k = next((j for j, x in enumerate(items) if x["pos"] >= c["end"]), None)
+            if k is None or c["end"] + 1 != items[k]["pos"]:
+                orphans += 1
+        if k is not None:
+            cs[k].append(tok(c["text"]))
     obs = {"header": norm_header(d["header"]) if d["header"] else "none", "pkg": d["pkg"],
            "imports": " ".join(sorted(i["name"] + i["path"] for i in d["imports"])),
-           "nitems": str(len(items)), "orphans": str(len(d["orphans"]))}
+           "nitems": str(len(items)), "orphans": str(orphans)}
     for k, x in enumerate(items):
-        cs = ([tok(x["doc"])] if x["doc"] else []) + [tok(c) for c in x["inner"]]
-        obs["item:%d" % k] = "[" + ",".join(cs) + "]" + tok(x["text"])
+        obs["item:%d" % k] = "[" + ",".join(cs[k]) + "]" + tok(x["text"])
     return obs
